@@ -31,7 +31,11 @@ const (
 	c20panicStr
 	c20panicWrap // panics with a Go error that itself wraps a lisp error (a callback's throw, passed on)
 	c20errWrap   // returns such an error
+	c20panicLisp // panics with a lisp error itself (re-raising what a lisp callback threw)
 )
+
+// the lisp error a bound function re-raises with panic(err)
+var c20LispErr = lisperror.NewLispError("thrown by a callback, re-raised", types.NewCursorFile("callback.lisp"))
 
 // a Go error of the function's own that wraps a lisp error: what a bound function does when a lisp
 // callback it called threw and it passes the failure on with its own context
@@ -70,6 +74,8 @@ func c20enter(idx int, ctx context.Context, fixed []any, rest []any) int {
 		panic("pans")
 	case c20panicWrap:
 		panic(c20WrapErr)
+	case c20panicLisp:
+		panic(c20LispErr)
 	}
 	return c20State.mode
 }
@@ -374,14 +380,14 @@ func init() {
 					el = append(el, q(a))
 				}
 				t := reflect.TypeOf(e.Fn)
-				for _, mode := range []int{c20err, c20panicErr, c20panicStr, c20panicWrap, c20errWrap} {
+				for _, mode := range []int{c20err, c20panicErr, c20panicStr, c20panicWrap, c20errWrap, c20panicLisp} {
 					if (mode == c20err || mode == c20errWrap) && t.NumOut() == 0 {
 						continue
 					}
 					c20State.entered, c20State.mode = 0, mode
 					_, err, p := lx.Eval(ctx, types.List{Val: el}, ns)
 					r.Exec(1)
-					what := []string{"", "returned error", "panic(error)", "panic(string)", "panic(Go error wrapping a lisp error)", "returned Go error wrapping a lisp error"}[mode]
+					what := []string{"", "returned error", "panic(error)", "panic(string)", "panic(Go error wrapping a lisp error)", "returned Go error wrapping a lisp error", "panic(lisp error)"}[mode]
 					if p != nil {
 						r.Violation("panic inside a bound function escapes: "+what, p.String())
 						break
@@ -397,6 +403,21 @@ func init() {
 					if mode == c20panicErr && !errors.Is(err, ErrPan) {
 						r.Violation("panicked Go error no longer reachable with errors.Is", err.Error())
 						break
+					}
+					if mode == c20panicLisp {
+						// the original (the lisp error and the value it carries) is still in the chain
+						var inner lisperror.LispError
+						found := false
+						for e := err; e != nil; e = errors.Unwrap(e) {
+							if le, ok := e.(lisperror.LispError); ok && le.ErrorValue() == c20LispErr.ErrorValue() {
+								inner, found = le, true
+							}
+						}
+						_ = inner
+						if !found {
+							r.Violation(what+": the panicked lisp error and its value are no longer reachable in the error chain", err.Error())
+							break
+						}
 					}
 					if (mode == c20panicWrap || mode == c20errWrap) && !errors.Is(err, c20WrapErr) {
 						r.Violation(what+": the function's own Go error is no longer reachable with errors.Is", err.Error())
